@@ -22,7 +22,7 @@ CHECK = {
                     "a (capture, packet index) pair belongs to one stream ID across all files of a case (versions of one ID may share packets)"],
     "mem_gb": 10,
     "campaigns": [
-        {"test": "TestVerifC07", "checks": {"quick": 3000, "thorough": 200000}, "death_is_violation": True},
+        {"test": "TestVerifC07", "checks": {"quick": 3000, "thorough": 150000}, "death_is_violation": True},
         {"test": "TestVerifC07Hosts6", "checks": {"quick": 8, "thorough": 320}, "death_is_violation": True, "shrinktime": "20s"},
         {"test": "TestVerifC07Hosts4", "checks": {"quick": 2, "thorough": 48}, "shards": {"quick": 2, "thorough": 16},
          "death_is_violation": True, "shrinktime": "20s"},
